@@ -28,6 +28,8 @@ from .errors import JSError, MemoryLimitError, TimeLimitError
 class Context:
     """JavaScript execution context with configurable limits."""
 
+    MAX_EVAL_DEPTH = 40  # script-level eval() nesting
+
     def __init__(
         self,
         memory_limit: Optional[int] = None,
@@ -43,6 +45,7 @@ class Context:
         self.time_limit = time_limit
         self._globals: Dict[str, JSValue] = {}
         self._current_vm = None  # Set during eval() for timeout checking
+        self._eval_depth = 0  # nesting of eval() calls made by script code
         self._setup_globals()
 
     def _setup_globals(self) -> None:
@@ -1079,6 +1082,11 @@ class Context:
                 # If not a string, return the argument unchanged
                 return code
 
+            # Each nested eval recurses in the host: bound the nesting like any
+            # other recursion instead of leaking the host's RecursionError
+            if ctx._eval_depth >= ctx.MAX_EVAL_DEPTH:
+                raise MemoryLimitError("Maximum eval nesting depth exceeded")
+            ctx._eval_depth += 1
             try:
                 parser = Parser(code)
                 ast = parser.parse()
@@ -1097,6 +1105,8 @@ class Context:
                 from .errors import JSError
 
                 raise JSError(f"EvalError: {str(e)}")
+            finally:
+                ctx._eval_depth -= 1
 
         return eval_fn
 
